@@ -42,9 +42,12 @@ Fixpoint dec_aux (fuel : nat) (n : N) (acc : str) : str :=
 Definition decimal (n : N) : str := dec_aux (S (N.size_nat n)) n [].
 
 (* ------------------------------------------------------------------ numbers (int()/float() on plain decimals) *)
-(* value = mant / 10^frac.  Domain modelled: [+-]? ( digits [. digits*] | . digits ), at most ~15 significant
-   digits (there float() is injective on decimals and int/float comparison agrees with the rationals).
-   Not modelled (treated as non-numeric): exponents, underscores, inf/nan, non-ASCII digits. *)
+(* value = mant / 10^frac.  Domain modelled: [+-]? ( digits [. digits*] | . digits ) ( [eE] [+-]? digits )?  - what both
+   int()/float() of CPython and PHP's is_numeric accept; the exponent is folded into (mant, frac) by `scale` (1e3 = (1000, 0),
+   5e-1 = (5, 1), 2.5E1 = (25, 0)), so `num` stays a decimal fraction and num_eqb compares VALUES.  Faithful for at most ~15
+   significant digits and exponents whose value stays far inside the double range (there float() is injective on decimals and
+   int/float comparison agrees with the rationals).
+   Not modelled (treated as non-numeric): underscores, inf/nan, non-ASCII digits. *)
 Definition num := (Z * nat)%type.
 
 Definition is_digit (c : N) : bool := (48 <=? c)%N && (c <=? 57)%N.
@@ -57,6 +60,30 @@ Fixpoint digits_val (s : str) (acc : Z) : option (Z * str) :=   (* longest digit
 Fixpoint count_digits (s : str) : nat :=
   match s with c :: r => if is_digit c then S (count_digits r) else O | [] => O end.
 
+(* exponent part  [eE] [+-]? digits+  (the whole rest of the string) *)
+Definition parse_exp (s : str) : option Z :=
+  match s with
+  | c :: r =>
+      if N.eqb c 101 || N.eqb c 69 then
+        let '(neg, ds) := match r with
+                          | 45 %N :: t => (true, t)
+                          | 43 %N :: t => (false, t)
+                          | _ => (false, r)
+                          end in
+        if Nat.eqb (count_digits ds) 0 then None
+        else match digits_val ds 0%Z with
+             | Some (v, []) => Some (if neg then Z.opp v else v)
+             | _ => None
+             end
+      else None
+  | [] => None
+  end.
+
+(* (m / 10^f) * 10^e as a decimal fraction again *)
+Definition scale (m : Z) (f : nat) (e : Z) : num :=
+  if (Z.of_nat f <=? e)%Z then ((m * Z.pow 10 (e - Z.of_nat f))%Z, O)
+  else (m, Z.to_nat (Z.of_nat f - e)).
+
 Definition parse_unsigned (s : str) : option num :=
   let n1 := count_digits s in
   match digits_val s 0%Z with
@@ -67,9 +94,12 @@ Definition parse_unsigned (s : str) : option num :=
           let n2 := count_digits fr in
           match digits_val fr ip with
           | Some (m, []) => if Nat.eqb (n1 + n2) 0 then None else Some (m, n2)
-          | _ => None
+          | Some (m, er) => if Nat.eqb (n1 + n2) 0 then None
+                            else match parse_exp er with Some e => Some (scale m n2 e) | None => None end
+          | None => None
           end
-      | _ => None
+      | _ => if Nat.eqb n1 0 then None
+             else match parse_exp rest with Some e => Some (scale ip O e) | None => None end
       end
   | None => None
   end.
